@@ -25,7 +25,7 @@ LEVEL_TEXT = (
     "random long histories with injected misses/false alarms/switches, a renamed second execution (metamorphic) and tracking "
     "scenarios through the real manager complete the workload."
 )
-LEVEL_NOTE = "Exact comparison needs unique estimate ids and ground-truth ids per frame (one-to-one matching); duplicate-id frames are judged by the accounting identity only."
+LEVEL_NOTE = "Exact comparison needs unique estimate ids and ground-truth ids per frame (one-to-one matching); duplicate-id frames are judged by the accounting identity only. Per-frame-pair values are read off the private CLEAR._calculate_tp_fp when it is observed once per pair, otherwise the history is judged on its totals."
 TECHNIQUE = "runtime monitoring: taps on CLEAR.__init__/_calculate_tp_fp + reference CLEAR accumulator; exhaustive history enumeration; metamorphic renaming"
 RULE = (
     "(a) exhaustive histories over estimate ids {A,B} x ground-truth ids {1,2,none} x {correct,far}: all 28 one-to-one frames, "
@@ -33,6 +33,7 @@ RULE = (
     "lengths 2..30; (c) random histories up to 200 frames x 12 objects, all matching modes, labels in/out of the target list, "
     "duplicate ids; (d) tracking scenarios through the real manager (frame level and scene level). non-trivial = history with "
     ">= 1 evaluated result after the previous frame; distinct = distinct (source, mode, length class, #switch class, #carry-over class, fp?, dup?)"
+    " Later additions: recordings of 11..101 frames (frame numbers crossing a power of ten) with the scene-level history compared frame by frame with the evaluated frames; when the private per-pair method is not observed once per pair the history is judged on its totals."
 )
 ASSUMPTIONS = [
     "ground-truth counts passed to CLEAR are taken as given",
